@@ -94,6 +94,10 @@ class SpecInfo:
             if isinstance(n, ast.Call) and isinstance(n.func, ast.Name):
                 self.calls.add(n.func.id)
         self.recursive = False
+        # abstract spec: body is `...` (after an optional docstring): an uninterpreted function with no definition.
+        # It names a value the contracts relate but never compute (e.g. "the circuit pass P returns for c").
+        body = [b for b in node.body if not (isinstance(b, ast.Expr) and isinstance(b.value, ast.Constant) and isinstance(b.value.value, str))]
+        self.abstract = len(body) == 1 and isinstance(body[0], ast.Expr) and isinstance(body[0].value, ast.Constant) and body[0].value.value is Ellipsis
 
 
 def _ann_sort(ann):
@@ -125,6 +129,9 @@ class ContractSet:
                 self._load(os.path.join(self.directory, fn))
         # recursion detection among specs
         for s in self.specs.values():
+            if s.abstract:
+                s.recursive = True      # gets a declared symbol; _define_spec adds no axiom
+                continue
             seen = set()
             stack = list(s.calls)
             while stack:
